@@ -298,6 +298,105 @@ Theorem dense_getitem_contract : forall t, getitem_contract t (dense_getitem t).
 Proof. intros t its r _ H. exact H. Qed.
 
 (* ------------------------------------------------------------------------------------- *)
+(** the DEFAULT LinearOperator._getitem: batch-only indexing of the operator, then unit-weight interpolation = selection of
+    rows and columns.  It meets the contract for every basic index as soon as the class's batch-only indexing does. *)
+
+Definition fullp (n : nat) : dplan := PSl 0 1 n.
+
+Lemma plans_fulls l : plans_of l (repeat full (length l)) = Some (map fullp l).
+Proof. induction l as [|n l IH]; [reflexivity|]. cbn [length repeat plans_of map]. rewrite plan_full, IH. reflexivity. Qed.
+Lemma slens_fulls l : slens (map fullp l) = l.
+Proof. induction l as [|n l IH]; [reflexivity|]. cbn [map]. rewrite slens_cons, IH. reflexivity. Qed.
+Lemma no_te_fulls l : forallb no_te (map fullp l) = true.
+Proof. induction l; simpl; auto. Qed.
+Lemma src_fulls l : forall ob, length ob = length l -> src (map fullp l) l [] [] ob = ob.
+Proof.
+  induction l as [|n l IH]; intros [|k ob] H; try discriminate; [reflexivity|]. cbn [map src hd tl fullp].
+  rewrite Z.mul_1_l, Z.add_0_l, Nat2Z.id. f_equal. apply IH. simpl in H. lia.
+Qed.
+
+Definition batch_only_contract (t : tensor) (bs : list nat) (gb : list item -> option tensor) : Prop :=
+  forall B r0, length B = length bs -> forallb basic B = true ->
+    torch_index_norm t (B ++ [full; full]) = Some r0 -> gb (B ++ [full; full]) = Some r0.
+
+Theorem default_getitem_contract : forall t gb bs m n, ok_tensor t = true -> tshape t = bs ++ [m; n] ->
+  batch_only_contract t bs gb -> getitem_contract t (default_getitem gb).
+Proof.
+  intros t gb bs m n Ot St Cb its r GI H. rewrite St in GI.
+  destruct (index_some_plans _ _ _ H) as [ps Hp]. rewrite St in Hp.
+  destruct (plans_split bs m n its ps GI Hp) as (psB & lr & sr & lenr & lc & sc & lenc & HpB & Hpr & Hpc & -> & HnB & LpB & LB).
+  assert (Hn : forallb no_te (psB ++ [PSl lr sr lenr; PSl lc sc lenc]) = true) by (rewrite forallb_app, HnB; reflexivity).
+  rewrite <- St in Hp. rewrite (index_basic t its _ Ot Hp Hn) in H. inversion H; subst r. clear H.
+  destruct GI as (GL & GB & GR & GC). rewrite <- GL in GR, GC. change (is_slice (irow its) = true) in GR. change (is_slice (icol its) = true) in GC.
+  assert (HbB : forallb basic (ibatch its) = true) by (apply basic_firstn; assumption).
+  assert (HpF : plans_of (tshape t) (ibatch its ++ [full; full]) = Some (psB ++ [fullp m; fullp n])).
+  { rewrite St, plans_of_app by lia. rewrite HpB. cbn [plans_of]. rewrite !plan_full. reflexivity. }
+  assert (HnF : forallb no_te (psB ++ [fullp m; fullp n]) = true) by (rewrite forallb_app, HnB; reflexivity).
+  unfold default_getitem. rewrite (Cb _ _ LB HbB (index_basic t _ _ Ot HpF HnF)).
+  rewrite !slens_app. set (lB := slens psB). change (slens [fullp m; fullp n]) with [m; n].
+  change (slens [PSl lr sr lenr; PSl lc sc lenc]) with [lenr; lenc].
+  simpl tshape. rewrite app_length. simpl length. replace (length lB + 2 - 2) with (length lB) by lia.
+  assert (Hp2 : plans_of (lB ++ [m; n]) (repeat full (length lB) ++ [irow its; icol its]) =
+                Some (map fullp lB ++ [PSl lr sr lenr; PSl lc sc lenc])).
+  { rewrite plans_of_app by (rewrite repeat_length; reflexivity). rewrite plans_fulls. cbn [plans_of]. rewrite Hpr, Hpc. reflexivity. }
+  assert (Hn2 : forallb no_te (map fullp lB ++ [PSl lr sr lenr; PSl lc sc lenc]) = true) by (rewrite forallb_app, no_te_fulls; reflexivity).
+  rewrite (index_tab_basic _ _ _ _ Hp2 Hn2). rewrite slens_app, slens_fulls.
+  change (slens [PSl lr sr lenr; PSl lc sc lenc]) with [lenr; lenc]. f_equal. apply tab_ext. intros x Hx.
+  destruct (enum_last2 _ _ _ _ Hx) as (ob & i & j & -> & Hob & Hi & Hj).
+  pose proof (enum_length _ _ Hob) as Lob.
+  rewrite (src_split (map fullp lB) lB _ [m; n] ob [i; j]) by (rewrite ?map_length, ?slens_fulls; assumption || reflexivity).
+  rewrite src_fulls by assumption. cbn [src hd tl].
+  rewrite St. fold lB in Lob. rewrite (src_split psB bs _ [m; n] ob _ LpB Lob).
+  rewrite (src_split psB bs _ [m; n] ob [i; j] LpB Lob). cbn [src hd tl fullp].
+  rewrite !Z.mul_1_l, !Z.add_0_l, !Nat2Z.id. reflexivity.
+Qed.
+
+(* ------------------------------------------------------------------------------------- *)
+(** Root (also Chol, LowRankRoot):  root._getitem(row, :, batch) @ root._getitem(col, :, batch)^T  in both branches *)
+
+Theorem root_getitem_contract : forall Rt g D bs m k, ok_tensor Rt = true -> tshape Rt = bs ++ [m; k] ->
+  getitem_contract Rt g -> tmatmul_nt Rt Rt = Some D -> getitem_contract D (root_getitem g).
+Proof.
+  intros Rt g D bs m k OR SR CR HD its r GI H.
+  assert (ED : D = tab (bs ++ [m; m]) (fun x => zsum_upto k (fun q => tget Rt (cb x ++ [cr x; Z.to_nat q]) * tget Rt (cb x ++ [cc x; Z.to_nat q])))%Z).
+  { unfold tmatmul_nt in HD. rewrite SR in HD. rewrite !app_length in HD. simpl length in HD.
+    replace (length bs + 2 - 2) with (length bs) in HD by lia. replace (length bs + 2 - 1) with (length bs + 1) in HD by lia.
+    rewrite firstn_app_len in HD. rewrite !app_nth2 in HD by lia. rewrite Nat.sub_diag in HD.
+    replace (length bs + 1 - length bs) with 1 in HD by lia. cbn [nth] in HD. rewrite lnat_eqb'_refl in HD.
+    replace (2 <=? length bs + 2) with true in HD by (symmetry; apply Nat.leb_le; lia). simpl andb in HD. inversion HD. reflexivity. }
+  subst D. simpl tshape in GI. destruct (index_some_plans _ _ _ H) as [ps Hp]. simpl tshape in Hp.
+  destruct (plans_split bs m m its ps GI Hp) as (psB & lr & sr & lenr & lc & sc & lenc & HpB & Hpr & Hpc & -> & HnB & LpB & LB).
+  assert (Hn : forallb no_te (psB ++ [PSl lr sr lenr; PSl lc sc lenc]) = true) by (rewrite forallb_app, HnB; reflexivity).
+  rewrite (index_tab_basic _ _ its _ Hp Hn) in H. inversion H; subst r. clear H.
+  destruct GI as (GL & GB & GR & GC). rewrite <- GL in GR, GC. change (is_slice (irow its) = true) in GR. change (is_slice (icol its) = true) in GC.
+  assert (HbB : forallb basic (ibatch its) = true) by (apply basic_firstn; assumption).
+  destruct (input_mk bs m k (ibatch its) (irow its) full LB HbB GR eq_refl) as (GIL & _).
+  destruct (input_mk bs m k (ibatch its) (icol its) full LB HbB GC eq_refl) as (GIR & _).
+  assert (HpL : plans_of (tshape Rt) (ibatch its ++ [irow its; full]) = Some (psB ++ [PSl lr sr lenr; PSl 0 1 k])).
+  { rewrite SR, plans_of_app by lia. rewrite HpB. cbn [plans_of]. rewrite Hpr, plan_full. reflexivity. }
+  assert (HpR : plans_of (tshape Rt) (ibatch its ++ [icol its; full]) = Some (psB ++ [PSl lc sc lenc; PSl 0 1 k])).
+  { rewrite SR, plans_of_app by lia. rewrite HpB. cbn [plans_of]. rewrite Hpc, plan_full. reflexivity. }
+  assert (HnL : forallb no_te (psB ++ [PSl lr sr lenr; PSl 0 1 k]) = true) by (rewrite forallb_app, HnB; reflexivity).
+  assert (HnR : forallb no_te (psB ++ [PSl lc sc lenc; PSl 0 1 k]) = true) by (rewrite forallb_app, HnB; reflexivity).
+  unfold root_getitem. rewrite <- SR in GIL, GIR.
+  rewrite (CR _ _ GIL (index_basic Rt _ _ OR HpL HnL)). rewrite (CR _ _ GIR (index_basic Rt _ _ OR HpR HnR)).
+  rewrite !slens_app. set (lB := slens psB).
+  change (slens [PSl lr sr lenr; PSl 0 1 k]) with [lenr; k]. change (slens [PSl lc sc lenc; PSl 0 1 k]) with [lenc; k].
+  change (slens [PSl lr sr lenr; PSl lc sc lenc]) with [lenr; lenc].
+  unfold tmatmul_nt. simpl tshape. rewrite !app_length. simpl length.
+  replace (length lB + 2 - 2) with (length lB) by lia. replace (length lB + 2 - 1) with (length lB + 1) by lia.
+  rewrite firstn_app_len. rewrite !app_nth2 by lia. rewrite Nat.sub_diag. replace (length lB + 1 - length lB) with 1 by lia.
+  cbn [nth]. rewrite lnat_eqb'_refl. replace (2 <=? length lB + 2) with true by (symmetry; apply Nat.leb_le; lia). simpl andb. cbv iota.
+  f_equal. apply tab_ext. intros x Hx. destruct (enum_last2 _ _ _ _ Hx) as (ob & i & j & -> & Hob & Hi & Hj).
+  pose proof (enum_length _ _ Hob) as Lob. fold lB in Lob.
+  rewrite SR. rewrite (src_split psB bs _ [m; m] ob [i; j] LpB Lob). cbn [src hd tl]. rewrite !cb_app, !cr_app, !cc_app.
+  apply zsum_upto_ext_nat. intros q Hq. rewrite Nat2Z.id.
+  rewrite !tget_tab by (apply in_enum_app; [assumption|apply in_enum; repeat constructor; assumption]).
+  rewrite (src_split psB bs _ [m; k] ob [i; q] LpB Lob). rewrite (src_split psB bs _ [m; k] ob [j; q] LpB Lob).
+  cbn [src hd tl]. rewrite !Z.mul_1_l, !Z.add_0_l, !Nat2Z.id. reflexivity.
+Qed.
+
+(* ------------------------------------------------------------------------------------- *)
 (** per-class END-TO-END theorems: operator[index] = dense[index] through the repaired front end *)
 
 Lemma tshape_tab sh f : tshape (tab sh f) = sh.
